@@ -16,6 +16,10 @@
 #endif
 #include "crypto/cryptoImpl.h"
 #if VF_OP == 1
+/* the dynamic buffers grow in steps of PS_DYNBUF_GROW (256): scaled to 16 so
+   that every block fits a slot of the heap model (the step is not observable) */
+# undef PS_DYNBUF_GROW
+# define PS_DYNBUF_GROW 16
 # include "core/src/psbuf.c"
 #endif
 #include "trace_stubs.h"
